@@ -45,6 +45,8 @@ LEGACY_EMPTY = False
 # from the read to the end of the wrap step: an overlapping nowrap=True read waits)
 LOCKED = True
 SHARD = 120
+CASE_TIMEOUT = 90      # a 'preempt' case enumerates all pre-emption points of one call (0.1 s each when the clear blocks)
+MAXPOINTS = 300
 
 NET_NAMES = ["lo", "eth0", "wlan0", "eth0:1", "a:b"]
 DISK_NAMES = ["sda", "sda1", "nvme0n1", "nvme0n1p2", "cciss/c0d0"]
@@ -365,6 +367,73 @@ def _race_term(case, locked):
     return "run_sched %s" % G.lst(steps)
 
 
+def _net8(v):
+    return [0, v, 1, 2, 3, 4, 5, 6]
+
+
+PREEMPT = [
+    # cache_clear() racing with a call that is INSIDE _WrapNumbers.run(): every line of run() is a pre-emption point
+    {"kind": "preempt", "cls": "preempt-wn", "api": "wn",
+     "pre": [["run", "n", [["a", [100, 5]], ["b", [7, 7]], ["c", [1, 1]]], 0], ["run", "n", [["a", [10, 5]], ["b", [8, 7]], ["c", [0, 1]]], 0]],
+     "call": ["run", "n", [["a", [5, 6]], ["b", [9, 9]]], 0], "clear": ["clear", "n", 1],
+     "post": [["run", "n", [["a", [3, 6]], ["b", [10, 9]]], 0], ["run", "n", [["a", [4, 7]], ["b", [2, 9]]], 0], ["clear", "n", 0],
+              ["run", "n", [["a", [1, 1]]], 0]]},
+    {"kind": "preempt", "cls": "preempt-wn", "api": "wn",
+     "pre": [["run", "n", [["a", [100]]], 0], ["run", "m", [["a", [9]]], 0], ["run", "n", [["a", [50]], ["z", [4]]], 0]],
+     "call": ["run", "n", [["z", [3]], ["a", [60]], ["q", [0]]], 0], "clear": ["clearall", 1],
+     "post": [["run", "n", [["a", [20]], ["z", [3]]], 0], ["run", "m", [["a", [1]]], 0], ["run", "n", [["a", [20]], ["z", [1]]], 0]]},
+    {"kind": "preempt", "cls": "preempt-wn-first", "api": "wn", "pre": [],
+     "call": ["run", "n", [["a", [5]]], 0], "clear": ["clear", "n", 1],
+     "post": [["run", "n", [["a", [3]]], 0], ["run", "n", [["a", [1]]], 0]]},
+    {"kind": "preempt", "cls": "preempt-pub", "api": "pub",
+     "pre": [["call", "net", True, True, [["eth0", _net8(100)], ["lo", _net8(5)]], 0], ["call", "net", True, True, [["eth0", _net8(40)], ["lo", _net8(6)]], 0]],
+     "call": ["call", "net", True, True, [["eth0", _net8(30)]], 0], "clear": ["clear", "net", 1],
+     "post": [["call", "net", True, True, [["eth0", _net8(20)]], 0], ["call", "net", False, True, [["eth0", _net8(25)], ["lo", _net8(1)]], 0],
+              ["clear", "net", 0], ["call", "net", True, True, [["eth0", _net8(2)]], 0]]},
+    {"kind": "preempt", "cls": "preempt-pub", "api": "pub",
+     "pre": [["call", "disk", True, True, [["sda", [9, 8, 512, 1024, 5, 4, 3, 2, 1]]], 0], ["call", "net", True, True, [["lo", _net8(5)]], 0]],
+     "call": ["call", "disk", True, True, [["sda", [1, 9, 0, 1024, 5, 4, 3, 2, 0]]], 0], "clear": ["clear", "disk", 1],
+     "post": [["call", "disk", True, True, [["sda", [0, 9, 0, 512, 5, 4, 3, 2, 0]]], 0], ["call", "net", True, True, [["lo", _net8(4)]], 0],
+              ["call", "disk", True, True, [["sda", [0, 1, 0, 512, 5, 4, 3, 2, 0]]], 0]]},
+]
+
+# a device vanishes while OTHERS stay listed and comes back with LOWER counters (no counter ever went backwards
+# while it was listed): demanded raw
+VANISH_LOWER = [
+    {"kind": "wn", "cls": "wn-scripted", "widths": {"disk_io": 2}, "threads": False, "ops": [
+        ["run", "disk_io", [["keep", [5, 5]], ["x", [1000, 2000]]], 0], ["run", "disk_io", [["keep", [6, 5]]], 0],
+        ["run", "disk_io", [["keep", [7, 6]]], 0], ["run", "disk_io", [["keep", [7, 7]], ["x", [3, 4]]], 0],
+        ["run", "disk_io", [["keep", [8, 7]], ["x", [5, 4]]], 0]]},
+    {"kind": "pub", "cls": "pub-scripted", "threads": False, "ops": [
+        ["call", "net", True, True, [["lo", _net8(10)], ["veth0", _net8(5000)]], 0], ["call", "net", True, True, [["lo", _net8(11)]], 0],
+        ["call", "net", True, True, [["lo", _net8(12)], ["veth0", _net8(7)]], 0], ["call", "net", False, True, [["lo", _net8(13)], ["veth0", _net8(9)]], 0]]},
+    {"kind": "pub", "cls": "pub-scripted", "threads": False, "ops": [
+        ["call", "disk", True, True, [["sda", [9, 9, 512, 512, 9, 9, 9, 9, 9]], ["sdb", [900, 800, 51200, 5120, 70, 60, 50, 40, 30]]], 0],
+        ["call", "disk", True, True, [["sda", [9, 9, 512, 512, 9, 9, 9, 9, 9]]], 0],
+        ["call", "disk", True, True, [["sda", [10, 9, 512, 512, 9, 9, 9, 9, 9]], ["sdb", [1, 2, 0, 512, 3, 4, 5, 6, 7]]], 0]]},
+]
+
+
+def _gen_preempt(rng, api):
+    if api == "wn":
+        k = Kernel(rng, rng.sample(WN_KEYS, rng.choice([2, 3])), rng.choice([1, 2]), False, p_vanish=0.3)
+        mk = lambda: ["run", "n", k.snapshot(), 0]
+        clear = rng.choice([["clear", "n", 1], ["clearall", 1]])
+        post_clear = ["clear", "n", 0]
+    else:
+        fn = rng.choice(["net", "disk"])
+        pool = NET_NAMES if fn == "net" else DISK_NAMES
+        k = Kernel(rng, rng.sample(pool, rng.choice([1, 2])), 8 if fn == "net" else 9, False, p_vanish=0.25,
+                   scale={2: 512, 3: 512} if fn == "disk" else None)
+        mk = lambda: ["call", fn, True, True, k.snapshot(), 0]
+        clear = ["clear", fn, 1]
+        post_clear = ["clear", fn, 0]
+    pre = [mk() for _ in range(rng.choice([1, 2, 3]))]
+    call = mk()
+    post = [mk(), mk()] + ([post_clear, mk()] if rng.random() < 0.5 else [])
+    return {"kind": "preempt", "cls": "preempt-" + api, "api": api, "pre": pre, "call": call, "clear": clear, "post": post}
+
+
 def _enum(nkeys, readings, maxlen):
     """all sequences over per-step options: every assignment key -> reading|absent, or cache_clear"""
     keys = WN_KEYS[:nkeys]
@@ -406,6 +475,11 @@ def gen_cases(rng, tier):
     cases = []
     if tier != "search":
         cases.extend(SCRIPTED)
+        cases.extend(VANISH_LOWER)
+        cases.extend(PREEMPT)
+        for _ in range(3 * n):
+            cases.append(_gen_preempt(rng, "wn"))
+            cases.append(_gen_preempt(rng, "pub"))
         if tier == "quick":
             cases.extend(_enum(1, [0, 1, 2], 4))
         else:
@@ -451,17 +525,28 @@ def _pop(o):
     return "PClear %s" % fn
 
 
+def _preempt_orders(case):
+    return (case["pre"] + [case["call"], case["clear"]] + case["post"],
+            case["pre"] + [case["clear"], case["call"]] + case["post"])
+
+
 def _ops_of(case):
+    if case["kind"] == "preempt":
+        return _preempt_orders(case)[0]
     return case["a"] + case["b"] if case["kind"] == "conc" else case["ops"]
 
 
 def _is_pub(case):
-    return case["kind"] == "pub" or (case["kind"] == "conc" and case["api"] == "pub")
+    return case["kind"] == "pub" or (case["kind"] in ("conc", "preempt") and case["api"] == "pub")
 
 
 def coq_term(case):
     if case["kind"] == "race":
         return "JL [%s; %s]" % (_race_term(case, False), _race_term(case, True))
+    if case["kind"] == "preempt":
+        if case["api"] == "pub":
+            return "JL [%s]" % "; ".join("run_pub %s %s" % (G.bo(LEGACY_EMPTY), G.lst([_pop(o) for o in ops])) for ops in _preempt_orders(case))
+        return "JL [%s]" % "; ".join("run_wn %s" % G.lst([_wop(o) for o in ops]) for ops in _preempt_orders(case))
     ops = _ops_of(case)
     if _is_pub(case):
         return "run_pub %s %s" % (G.bo(LEGACY_EMPTY), G.lst([_pop(o) for o in ops]))
@@ -484,6 +569,10 @@ def _canon_info(info):
 
 
 def coq_struct(case, raw):
+    if case["kind"] == "preempt":
+        # raw[0] = the call takes effect before the clear, raw[1] = after it; [model trace, spec trace, ...]
+        return {"model": {"call-first": raw[0][0], "clear-first": raw[1][0]},
+                "spec": {"call-first": raw[0][1], "clear-first": raw[1][1]}}
     if case["kind"] == "race":
         # raw[i] = [model answers, sequential spec on the linearisation, read-time demanded answers, lock_ok]
         # for the schedule as scripted (0) / as realised under the lock (1)
@@ -517,6 +606,26 @@ def judge(case, coq, impl):
     from pv.core import Verdict
     if isinstance(impl, dict) and impl.get("t") == "Skip":
         return Verdict("skip", str(impl.get("a")))
+    if case["kind"] == "preempt":
+        if not isinstance(impl, list) or not impl:
+            return Verdict("corr", "no pre-emption point inside _WrapNumbers.run() was reached: %r" % (impl,))
+        bad_model = None
+        for pt in impl:
+            tag, pre, call, clear, post = pt
+            cf = pre + [call, clear] + post
+            lf = pre + [clear, call] + post
+            sp = coq["spec"]
+            if sp["call-first"] is not None and cf != sp["call-first"] and lf != sp["clear-first"]:
+                want = sp["call-first"]
+                j = next((i for i, (a, b) in enumerate(zip(cf, want)) if a != b), 0)
+                return Verdict("violation", "cache_clear() by another thread at pre-emption point %s of run() (landed in the middle: %s): "
+                               "the answers are those of neither order of the two operations; with the call first, answer %d is %s, demanded %s" % (
+                                   tag["a"][0], tag["a"][1], j, cf[j], want[j]))
+            if tag["a"][1] is not False or cf != coq["model"]["call-first"]:
+                bad_model = tag
+        if bad_model is not None:
+            return Verdict("corr", "pre-emption point %s: the clear took effect inside run() (model of record: it waits for _wn.lock)" % (bad_model["a"],))
+        return Verdict("ok")
     if case["kind"] == "race":
         if not (isinstance(impl, list) and len(impl) == 2 and isinstance(impl[0], dict) and impl[0].get("t") == "Realised"):
             return Verdict("corr", "unexpected result shape")
@@ -793,6 +902,22 @@ def _run_race(psutil, case):
     return [T("Realised", "other: %r" % (real,)), answers]
 
 
+def _run_preempt(psutil, root, case):
+    from props import _c10_sched as S
+    do = _do_pub if case["api"] == "pub" else _do_wn
+    wn = psutil._common.wrap_numbers
+    out = []
+    for k in range(MAXPOINTS):
+        wn.cache_clear()
+        pre = [do(psutil, root, o) for o in case["pre"]]
+        r = S.run_with_preemption(lambda: do(psutil, root, case["call"]), lambda: do(psutil, root, case["clear"]), k)
+        post = [do(psutil, root, o) for o in case["post"]]
+        if not r["reached"]:
+            break
+        out.append([T("Point", k, bool(r["during"])), pre, r["call"], r["clear"], post])
+    return out
+
+
 def _stopped(r):
     return isinstance(r, dict) and r.get("t") == "Exc"
 
@@ -813,6 +938,8 @@ def impl_run(case, coq, env):
     try:
         if case["kind"] == "race":
             return _run_race(psutil, case)
+        if case["kind"] == "preempt":
+            return _run_preempt(psutil, root, case)
         do = _do_pub if _is_pub(case) else _do_wn
         if case["kind"] == "conc":
             res = {0: [], 1: []}
